@@ -218,7 +218,7 @@ class BUnit:
     def guard_sat(self, name, hyps, unit, timeout_ms=10000):
         """vacuity guard for a hand-picked (minimal) hypothesis set: it must be satisfiable, else everything follows from it"""
         import time as _t
-        s_ = z3.Solver(); s_.set("timeout", timeout_ms); s_.add(*hyps)
+        s_ = z3.Solver(); s_.set("timeout", int(timeout_ms * S.timeout_scale())); s_.add(*hyps)
         t0 = _t.time(); r = s_.check()
         st = "discharged" if r == z3.sat else ("failed" if r == z3.unsat else "undecided")
         from vlib import Obligation
